@@ -105,7 +105,8 @@ inductive Step
   | complete
 
 def parseSched (s : String) : Option (List Step) :=
-  (s.splitOn ",").mapM fun t =>
+  -- ("s<late>.<rd>": how slowly the harness's CGI reads its stdin — timing only, not the model's business)
+  ((s.splitOn ",").filter fun t => !t.startsWith "s").mapM fun t =>
     if t = "e" then some .complete
     else if t.startsWith "c" then (t.drop 1).toString.toNat?.map .fixed
     else t.toNat?.map .arrive
